@@ -4,7 +4,7 @@
    hypothesis: no hub/topic queue overflows - a notification is dropped only when its destination topic is
    not loaded, as hub.go:247-263 does).  Lemmas: Sys/PresProofs.v.  Theorems only. *)
 From Coq Require Import List NArith ZArith Bool.
-From Tinode Require Import Sys.Pres Sys.PresProofs Sys.PresLeak.
+From Tinode Require Import Sys.Pres Sys.PresProofs Sys.PresLeak Sys.PresStuckC10 Sys.PresStuckC10Proofs.
 Import ListNotations.
 Open Scope N_scope.
 
@@ -171,6 +171,50 @@ Print Assumptions c10_no_leak_banned_refuted.
 Theorem c10_online_count_refuted : ~ c10_online_count_statement.
 Proof. exact online_count_refuted. Qed.
 Print Assumptions c10_online_count_refuted.
+
+(* SLOW CONSUMERS (Sys/PresStuckC10.v).  A session whose outbound queue is full is detached by the topic in the
+   middle of a fan-out (broadcastToSessions, topic.go:1326-1337 -> unregisterSession -> handleLeaveRequest:
+   online--).  xinv_c10x s := online_ok s (every 'me', p2p and group topic: online(u) = number of attached
+   foreground sessions of u) /\ no session attached twice.
+   (1) the drop itself keeps the invariant, in EVERY state (not only reachable ones), for any session, user, topic: *)
+Theorem c10_online_count_drop : forall s sid u t, xinv_c10x s -> xinv_c10x (drop_c10x s sid u t).
+Proof. exact drop_xinv. Qed.
+Print Assumptions c10_online_count_drop.
+
+(* (2) every handler that fans out - {note} (handleNoteBroadcast), {pub} (saveAndBroadcastMessage), the delivery
+   of a routed {pres}/{info} (handleServerMsg/handlePresence) - keeps it, with ANY set of stuck sessions, from
+   EVERY state: the handler's own writes of perUser precede the fan-out, the drops come last; clogging and
+   unclogging do not touch the counters. *)
+Theorem c10_online_count_fanout : forall xs o,
+  fanout_xop_c10x o -> xinv_c10x (fst xs) -> xinv_c10x (fst (fst (xstep_c10x xs o))).
+Proof. exact xstep_fanout_xinv. Qed.
+Print Assumptions c10_online_count_fanout.
+
+(* (3) hence for all histories of such operations, of any length, in any order, from any state with the invariant *)
+Theorem c10_online_count_fanout_histories : forall h xs,
+  Forall fanout_xop_c10x h -> xinv_c10x (fst xs) -> xinv_c10x (fst (fst (xrun_c10x xs h))).
+Proof. exact xrun_fanout_xinv. Qed.
+Print Assumptions c10_online_count_fanout_histories.
+
+(* (4) without stuck sessions the extended step IS the step of Sys/Pres.v (everything proved above about
+   Pres.step still speaks about the model that is run against the code) *)
+Theorem c10_stuck_conservative : forall s o, xstep_c10x (s, []) (XOp o) = ((fst (step s o), []), snd (step s o)).
+Proof. exact xstep_conservative. Qed.
+Print Assumptions c10_stuck_conservative.
+
+(* (5) the order matters: the same {note} handler with the write-back `t.perUser[asUid] = pud` placed AFTER the
+   fan-out (xstep_late_c10x) breaks the count on a reachable state - user 1 with two foreground sessions in a
+   group, one stuck, the other sends {note read}: online stays 2 with 1 session attached. *)
+Theorem c10_online_count_stale_writeback_refuted : ~ late_writeback_statement_c10x.
+Proof. exact stale_writeback_breaks_online_count. Qed.
+Print Assumptions c10_online_count_stale_writeback_refuted.
+
+Example c10_stuck_drop_example :
+  let xs := fst (xrun_c10x xinit_c10x h_stuck_c10x) in
+  let xs1 := fst (xstep_c10x xs (XOp (Note 2 1 (RGrp 1) WIRead 1))) in
+  (online_of_c10x (fst xs) (TGrp 1) 1 = 2 /\ attached_of_c10x (fst xs) (TGrp 1) 1 = 2)%Z /\
+  (online_of_c10x (fst xs1) (TGrp 1) 1 = 1 /\ attached_of_c10x (fst xs1) (TGrp 1) 1 = 1)%Z.
+Proof. exact stuck_drop_example. Qed.
 
 (* ---------------------------------------------------------------- convergence *)
 
